@@ -20,7 +20,7 @@ def canon(fn, n, depth=0):
     if k == 'DeclRefExpr':
         if nd.get('g') and 'cv' in nd:
             return ('c', int(nd['cv']))
-        return ('v', nd.get('n'))
+        return ('v', getattr(fn, '_pinned', {}).get(nd.get('d'), nd.get('n')))
     if k == 'MemberExpr':
         base = canon(fn, ks[0], depth + 1) if ks else ('this',)
         if base in (('this',), ('?',)) or (ks and fn.nodes[fn.strip(ks[0])]['k'] == 'CXXThisExpr'):
@@ -109,3 +109,45 @@ def statements(fn, root=None):
         elif nd['k'] == 'CXXOperatorCallExpr' and nd.get('op', '').endswith('=') and nd['op'] not in ('==', '!=', '<=', '>=') and len(fn.kids(i)) == 3:
             out.append((nd['op'], canon(fn, fn.kids(i)[1]), canon(fn, fn.kids(i)[2]), i))
     return out
+
+
+# ---- names ---------------------------------------------------------------------------------------------------------
+# Table rules are written with the parameter and local names of the pinned tree.  So that renaming a parameter or a local
+# (a behaviour-preserving edit) does not disturb them, each function's declarations are mapped *by position* onto the pinned
+# names recorded in props/pinned_names.json (parameters by index, locals by declaration order).  When the number of locals
+# differs from the pinned list the source names are used as they are.
+_PINNED = None
+
+
+def local_decls(fn):
+    pd = {p['d'] for p in fn.params}
+    return [fn.nodes[i] for i in fn.walk() if fn.nodes[i]['k'] == 'VarDecl' and fn.nodes[i].get('d') not in pd and fn.nodes[i].get('n')]
+
+
+def pin(fn):
+    """Attach the positional renaming for fn (idempotent). Returns fn."""
+    global _PINNED
+    import json
+    import os
+    if _PINNED is None:
+        path = os.path.join(os.path.dirname(os.path.dirname(os.path.abspath(__file__))), 'props', 'pinned_names.json')
+        _PINNED = json.load(open(path)) if os.path.exists(path) else {}
+    if getattr(fn, '_pinned', None) is not None:
+        return fn
+    ren = {}
+    ent = _PINNED.get(fn.q)
+    if ent:
+        if len(ent['params']) == len(fn.params):
+            for p_, want in zip(fn.params, ent['params']):
+                ren[p_['d']] = want
+        decls = local_decls(fn)
+        if len(decls) == len(ent['locals']):
+            for nd, want in zip(decls, ent['locals']):
+                ren[nd['d']] = want
+    fn._pinned = ren
+    return fn
+
+
+def vn(fn, nd):
+    """Pinned name of a declaration node (VarDecl / ParmVar / DeclRefExpr)."""
+    return getattr(fn, '_pinned', {}).get(nd.get('d'), nd.get('n'))
